@@ -635,6 +635,18 @@ func (h *Harness) durableIterStep(r *dbcheck.Run) {
 			"OnlyReadGuaranteedDurable view is not a prefix of the history: it shows the flushed prefix up to unit %d plus later ingest/excise unit(s) up to %d while %d unflushed batch(es) in between are absent",
 			vm.Prefix, vm.Q, vm.LostBatch)
 	}
+	if !vm.Mixed {
+		// Several prefix states can be equal (a later unit may undo an earlier
+		// one); the statement is existential, so take the earliest matching one.
+		h.T.mu.Lock()
+		for p := view.d; p < vm.Prefix; p++ {
+			if h.T.units[p].canon == canon {
+				vm.Prefix, vm.Q = p, p
+				break
+			}
+		}
+		h.T.mu.Unlock()
+	}
 	// crash right now with no unsynced survival
 	b := h.T.before()
 	clone := h.mem.CrashClone(vfs.CrashCloneCfg{})
@@ -649,8 +661,8 @@ func (h *Harness) durableIterStep(r *dbcheck.Run) {
 	}
 	if rv.Prefix < vm.Prefix || rv.Q < vm.Q {
 		r.FailMatch("durable-view-not-crash-proof", nil,
-			"the OnlyReadGuaranteedDurable iterator showed the history up to unit %d (ingests up to %d) but a crash at that moment recovered only up to unit %d (ingests up to %d)",
-			vm.Prefix, vm.Q, rv.Prefix, rv.Q)
+			"the OnlyReadGuaranteedDurable iterator showed the history up to unit %d (ingests up to %d) but a crash at that moment recovered only up to unit %d (ingests up to %d)\nview:\n%s\nstate after unit %d:\n%s\nunits:%s",
+			vm.Prefix, vm.Q, rv.Prefix, rv.Q, clip(canon), rv.Prefix, clip(h.canonOf(rv.Prefix)), h.unitList(bounds{d: rv.Prefix, issued: b.issued}))
 		return
 	}
 	if vm.Prefix > 0 {
